@@ -20,20 +20,28 @@ def inner(path):
         return replay_snapshot_variants(doc, path)
     if doc.get("scenario") == "golden-variants":
         return replay_golden_variants(doc, path)
+    if doc.get("scenario") == "import-variants":
+        return replay_import_variants(doc, path)
     if doc.get("scenario", "").startswith("cold"):
         from . import cold
         return cold.replay(doc, path)
     srv = doc.get("server") or {}
     S = Server(import_order=srv.get("import_order") or SUBPACKAGES, variant=srv)
-    out = runner.execute(S, doc, want_cov=False)
-    if "harness_error" in out:
-        print("HARNESS-ERROR %s" % out["harness_error"][:1500])
-        return 2
     cls = runner.violation_class(want) if want else None
-    same = [v for v in out["violations"]
-            if cls is None or (runner.violation_class(v) == cls and
-                               v.get("task") == want.get("task") and
-                               v.get("op") == want.get("op"))]
+    for attempt in range(int(doc.get("replay_attempts") or 1)):
+        out = runner.execute(S, doc, want_cov=False)
+        if "harness_error" in out:
+            print("HARNESS-ERROR %s" % out["harness_error"][:1500])
+            return 2
+        same = [v for v in out["violations"]
+                if cls is None or (runner.violation_class(v) == cls and
+                                   v.get("task") == want.get("task") and
+                                   v.get("op") == want.get("op"))]
+        if same:
+            break
+        if doc.get("replay_attempts"):
+            print("attempt %d: not reproduced (this history depends on object identity "
+                  "reuse; re-executing)" % (attempt + 1))
     print("replayed %s: %d operations, %d switches, faults fired %s, %d violation(s)" % (
         path, out["stats"]["ops"], out["stats"]["switches"],
         out["stats"]["faults_fired"], len(out["violations"])))
@@ -65,6 +73,45 @@ def replay_snapshot_variants(doc, path):
         digs.append(r.stdout.strip())
     print("public data snapshot digests per variant:", digs)
     if len(set(digs)) > 1:
+        print("VIOLATION property=C20 replay=%s" % path)
+        return 1
+    print("not reproduced")
+    return 0
+
+
+def try_imports(variant):
+    """import the sub-packages in a freshly started interpreter; -> 'ok' or the
+    exception type"""
+    env = dict(os.environ)
+    env["PYTHONHASHSEED"] = str(variant.get("hashseed", 0))
+    env["PYTHONDONTWRITEBYTECODE"] = "1"
+    pp = [VERIF]
+    if os.environ.get("SIM_REPO_ROOT"):
+        pp.insert(0, os.environ["SIM_REPO_ROOT"])
+    env["PYTHONPATH"] = os.pathsep.join(pp)
+    code = ("import importlib,sys\n"
+            "try:\n"
+            "    for n in %r: importlib.import_module('py_ecc.'+n)\n"
+            "    print('RESULT ok')\n"
+            "except BaseException as e:\n"
+            "    print('RESULT', type(e).__module__+'.'+type(e).__qualname__, 'importing', n)\n"
+            % (list(variant.get("import_order") or []),))
+    r = subprocess.run([sys.executable] + list(variant.get("flags") or []) + ["-c", code],
+                       cwd=VERIF, env=env, capture_output=True, text=True)
+    for line in r.stdout.splitlines():
+        if line.startswith("RESULT "):
+            return line[7:]
+    return "crash %s %s" % (r.returncode, r.stderr[-300:])
+
+
+def replay_import_variants(doc, path):
+    res = []
+    for v in doc["variants"]:
+        out = try_imports(v)
+        res.append(out)
+        print("  import order %s flags %s hashseed %s -> %s" % (
+            v.get("import_order"), v.get("flags"), v.get("hashseed"), out))
+    if len(set(r.split(" importing")[0] for r in res)) > 1:
         print("VIOLATION property=C20 replay=%s" % path)
         return 1
     print("not reproduced")
